@@ -312,7 +312,7 @@ func genAuth(prop string) func(rng *simkit.Rand, tier string, idx int) *simkit.C
 		c.Cfg["yield_den"] = []int64{0, 64, 8}[rng.Intn(3)]
 		c.Cfg["stall_den"] = []int64{0, 0, 200}[rng.Intn(3)] // execution-time fault in a third of the runs
 		c.Cfg["stall_max_us"] = 500
-		kinds := []string{"proxy", "proxy", "tcp", "admin", "admin", "listen", "listen", "expiry"}
+		kinds := []string{"proxy", "proxy", "tcp", "admin", "admin", "listen", "listen", "expiry", "reuse"}
 		if prop == "C16" {
 			kinds = []string{"expiry", "expiry", "expiry-edge", "expiry-edge", "expiry-edge", "listen", "proxy"}
 			// execution takes time: only then can an instant (a token's expiry)
@@ -344,6 +344,9 @@ func execAuth(run *simkit.Run) {
 	r := simkit.NewRand(uint64(c.I64("authseed")))
 	w.proxy, w.upstream, w.admin = drawPortAuth(r, false), drawPortAuth(r, false), drawPortAuth(r, false)
 	w.upstream.noDisconnect = r.Intn(4) == 0
+	// (a generator of its own: the draws above and below stay what they were)
+	r2 := simkit.NewRand(uint64(c.I64("authseed")) ^ 0x5eed0c09)
+	w.proxy.noDisconnect, w.admin.noDisconnect = r2.Intn(3) == 0, r2.Intn(3) == 0
 	nt := c.Int("tenants")
 	for i := 0; i < nt; i++ {
 		w.tenants = append(w.tenants, fmt.Sprintf("tenant%d", i))
@@ -411,6 +414,8 @@ func execAuth(run *simkit.Run) {
 			w.authListen(rr)
 		case "expiry":
 			w.authExpiry(rr)
+		case "reuse":
+			w.authReuse(rr)
 		case "expiry-edge":
 			w.authExpiryEdge(rr)
 		}
@@ -735,6 +740,99 @@ func (w *authWorld) authListen(r *simkit.Rand) {
 			run.Fail("C16.while", "closed-but-still-registered", "%s: the listener was shut down but the endpoint count is %d (was %d before it connected)", tag, got, before)
 		}
 	}
+}
+
+// authReuse: "unexpired" is judged at every presentation. A token that was
+// accepted while it was valid is presented again, unchanged, to the same node
+// and port after its expiry: nothing the server remembers about the earlier
+// acceptance may stand in for the check (whatever disconnect-on-expiry says:
+// that option is about connections that are already open).
+func (w *authWorld) authReuse(r *simkit.Rand) {
+	run := w.run
+	entry := w.liveNodes()[r.Intn(len(w.liveNodes()))]
+	port := r.Intn(3)
+	pa := []portAuth{w.proxy, w.admin, w.upstream}[port]
+	if !pa.enabled || (port == 2 && len(w.tenants) > 0) {
+		return
+	}
+	t := drawValid(pa)
+	t.exp = time.Duration(r.Range(2, 5)) * time.Second
+	now := time.Now()
+	tok := t.sign(now)
+	exp := time.Unix(now.Add(t.exp).Unix(), 0) // one-second resolution
+	uses := r.Range(1, 3)
+	present := func(i int) (status int, delivered bool, err error) {
+		switch port {
+		case 0:
+			rq := w.buildReq(entry.idx, "e1", 0)
+			rq.Header.Set("Authorization", "Bearer "+tok)
+			res := w.do(rq)
+			w.mu.Lock()
+			delivered = len(w.reqs[rq.ID]) > 0
+			w.mu.Unlock()
+			return res.Status, delivered, res.Err
+		case 1:
+			req, _ := http.NewRequest("GET", fmt.Sprintf("http://%s:8002%s", entry.host, []string{"/status/cluster/nodes", "/metrics", "/health"}[i%3]), nil)
+			req.Header.Set("Authorization", "Bearer "+tok)
+			resp, err := w.hc.Do(req)
+			if err != nil {
+				return 0, false, err
+			}
+			body, _ := io.ReadAll(resp.Body)
+			resp.Body.Close()
+			return resp.StatusCode, bytes.Contains(body, []byte("piko_")) || bytes.Contains(body, []byte("proxy_addr")), nil
+		default:
+			ep := "reuse-l"
+			before := w.nodes[entry.idx].srv.ClusterState().LocalNode().Endpoints[ep]
+			a, err := w.listenAuth(ep, "http", entry.idx, tok, "")
+			w.settle()
+			after := w.nodes[entry.idx].srv.ClusterState().LocalNode().Endpoints[ep]
+			if a != nil {
+				a.shutdown()
+				time.Sleep(200 * time.Millisecond)
+				w.settle()
+			}
+			if err != nil {
+				st := 0
+				if strings.Contains(err.Error(), "401") {
+					st = 401
+				}
+				return st, after != before, nil
+			}
+			return 200, after != before, nil
+		}
+	}
+	tag := fmt.Sprintf("token[valid, exp +%v, family=%s] on %s %s port[%+v]", t.exp, t.family, entry.id, []string{"proxy", "admin", "upstream"}[port], pa)
+	for i := 0; i < uses; i++ {
+		if time.Until(exp) < 300*time.Millisecond {
+			break
+		}
+		st, _, err := present(i)
+		run.Logf("reuse: %s use %d -> %d err=%v", tag, i, st, err)
+		if err != nil {
+			return
+		}
+		if st == 401 && time.Until(exp) > 0 {
+			run.Fail("C09.allow", "valid-token-refused", "%s: refused %v before its expiry", tag, time.Until(exp))
+			return
+		}
+	}
+	if d := time.Until(exp) + time.Duration(r.Range(1, 2500))*time.Millisecond; d > 0 {
+		time.Sleep(d)
+	}
+	late := time.Since(exp)
+	st, delivered, err := present(uses)
+	run.Logf("reuse: %s presented again %v after the expiry -> %d delivered=%v err=%v", tag, late, st, delivered, err)
+	if err != nil {
+		return
+	}
+	if st != 401 {
+		run.Fail("C09.deny", "expired-token-accepted-after-earlier-use", "%s: accepted while valid, presented again %v after its expiry: must be refused with 401, got %d", tag, late, st)
+	}
+	if delivered {
+		run.Fail("C09.deny", "expired-token-ran-route-after-earlier-use", "%s: presented again %v after its expiry and the route ran", tag, late)
+	}
+	run.Probe("c09.reuse_after_expiry_refused")
 }
 
 // settle waits until nothing moves any more. With the execution-time fault on
